@@ -12,6 +12,7 @@ import TgModel.Host
 import TgModel.Sched
 import TgModel.Session
 import TgModel.Ide.Handlers
+import TgModel.Lsp
 import Lean.Data.Json
 
 open Tg
@@ -344,6 +345,104 @@ def cmdWsCheck (rest : String) : String :=
 
 end Ws
 
+/-! ### `lspmap <json>`: the conversion layer (`TgModel/Lsp.lean`) on an ide-level answer
+
+Input: one JSON object `{"files": {<path>: <text>, …}, "kind": <handler>, "file": <path>, "answer": <answer>}`;
+`files` are the documents of the snapshot (path and current text), `file` the requested document (for the
+handlers that have one), `answer` the ide-level answer in the format the `ws` command prints it.  A path that
+does not occur in `files` denotes a document with empty text.  Output: the LSP answer, compact JSON, positions
+as `[line, character]`, ranges as `[[line, character], [line, character]]`. -/
+section LspMap
+open Lean (Json)
+open Tg.Ide
+
+partial def jStrings (j : Json) (acc : Array String) : Array String :=
+  match j with
+  | .str s => acc.push s
+  | .arr a => a.foldl (fun acc x => jStrings x acc) acc
+  | .obj kvs => kvs.foldl (fun acc _ v => jStrings v acc) acc
+  | _ => acc
+
+def jnat (j : Json) : Nat := match j.getNat? with | .ok n => n | _ => 0
+def jstr (j : Json) : String := match j with | .str s => s | _ => ""
+def jidx (j : Json) (i : Nat) : Json := match j.getArrVal? i with | .ok v => v | _ => Json.null
+def jfield (j : Json) (k : String) : Json := match j.getObjVal? k with | .ok v => v | _ => Json.null
+def jlist (j : Json) : List Json := match j with | .arr a => a.toList | _ => []
+
+def jPos (p : Lsp.Position) : Json := Json.arr #[jNat p.line, jNat p.character]
+def jRange (r : Lsp.Range) : Json := Json.arr #[jPos r.start, jPos r.stop]
+def jLocation (l : Lsp.Location) : Json := Json.mkObj [("uri", Json.str l.uri), ("range", jRange l.range)]
+
+partial def jLspSym (s : Lsp.DocumentSymbol) : Json :=
+  Json.mkObj [("name", Json.str s.name), ("detail", Json.str s.detail), ("kind", Json.str s.kind.name),
+    ("range", jRange s.range), ("selection_range", jRange s.selectionRange),
+    ("children", match s.childrenOpt with
+      | none => Json.null
+      | some cs => Json.arr (cs.map jLspSym).toArray)]
+
+def symKindOf : String → Handlers.DocumentSymbolKind
+  | "Class" => .cls | "TemplateArgument" => .templateArgument | "Field" => .field | "Def" => .def_
+  | "Variable" => .variable_ | "Defset" => .defset | _ => .multiclass
+
+partial def symOfJson (j : Json) : Handlers.DocumentSymbol :=
+  { name := jstr (jfield j "name"), typ := jstr (jfield j "typ"), kind := symKindOf (jstr (jfield j "kind")),
+    range := (jnat (jidx (jfield j "range") 0), jnat (jidx (jfield j "range") 1)),
+    children := (jlist (jfield j "children")).map symOfJson }
+
+def jOpt {α : Type} (o : Option α) (f : α → Json) : Json := match o with | none => Json.null | some a => f a
+
+def cmdLspMap (rest : String) : String :=
+  match Json.parse rest with
+  | .error e => s!"bad-json {e}"
+  | .ok spec =>
+    let files : Array (String × List Char) := match spec.getObjVal? "files" with
+      | .ok (.obj kvs) => kvs.foldl (fun acc k v => acc.push (k, (jstr v).toList)) #[]
+      | _ => #[]
+    let answer := jfield spec "answer"
+    -- every other path that is mentioned: a document with empty text
+    let mentioned := jStrings answer (jStrings (jfield spec "file") #[])
+    let files := mentioned.foldl (fun acc p => if acc.any (·.1 == p) then acc else acc.push (p, [])) files
+    let snap : Lsp.Snapshot := { path := fun f => (files.getD f ("", [])).1, text := fun f => (files.getD f ("", [])).2 }
+    let fid (j : Json) : Nat := (files.findIdx? (·.1 == jstr j)).getD files.size
+    let file := fid (jfield spec "file")
+    let loc (j : Json) : SymbolMap.Loc := ⟨fid (jidx j 0), jnat (jidx j 1), jnat (jidx j 2)⟩
+    let isNull := answer.isNull
+    let out : Json := match jstr (jfield spec "kind") with
+      | "definition" =>
+        jOpt (Lsp.definition snap (if isNull then none else some (loc answer))) jLocation
+      | "references" =>
+        jOpt (Lsp.references snap (if isNull then none else some ((jlist answer).map loc)))
+          fun ls => Json.arr (ls.map jLocation).toArray
+      | "document_symbol" =>
+        jOpt (Lsp.documentSymbols snap file (if isNull then none else some ((jlist answer).map symOfJson)))
+          fun ss => Json.arr (ss.map jLspSym).toArray
+      | "folding_range" =>
+        jOpt (Lsp.foldingRanges snap file
+            (if isNull then none else some ((jlist answer).map fun r => (jnat (jidx r 0), jnat (jidx r 1)))))
+          fun fs => Json.arr (fs.map fun f => Json.arr #[jNat f.startLine, jNat f.endLine]).toArray
+      | "document_link" =>
+        jOpt (Lsp.documentLinks snap file
+            (if isNull then none else some ((jlist answer).map fun r => ((jnat (jidx r 0), jnat (jidx r 1)), fid (jidx r 2)))))
+          fun ds => Json.arr (ds.map fun d => Json.mkObj [("range", jRange d.range), ("target", Json.str d.target)]).toArray
+      | "inlay_hint" =>
+        jOpt (Lsp.inlayHints snap file
+            (if isNull then none else some ((jlist answer).map fun h =>
+              { position := jnat (jidx h 0), label := jstr (jidx h 1),
+                kind := if jstr (jidx h 2) == "TemplateArg" then .templateArg else .fieldLet })))
+          fun hs => Json.arr (hs.map fun h => Json.mkObj [("position", jPos h.position), ("label", Json.str h.label),
+            ("padding_left", Json.bool h.paddingLeft), ("padding_right", Json.bool h.paddingRight)]).toArray
+      | "diagnostics" =>
+        let groups : List (Nat × List Ide.Diagnostic) := (jlist answer).map fun g =>
+          (fid (jidx g 0), (jlist (jidx g 1)).map fun d =>
+            { location := ⟨fid (jidx d 0), jnat (jidx d 1), jnat (jidx d 2)⟩, message := jstr (jidx d 3) })
+        Json.arr ((Lsp.publishDiagnostics snap groups).map fun (p, ds) =>
+          Json.arr #[Json.str p, Json.arr (ds.map fun d =>
+            Json.mkObj [("range", jRange d.range), ("message", Json.str d.message)]).toArray]).toArray
+      | _ => Json.str "bad-kind"
+    out.compress
+
+end LspMap
+
 def dispatch (cmd rest : String) : String :=
   match cmd with
   | "lex" => match payload rest with | some s => cmdLex s | none => "bad-utf8"
@@ -360,6 +459,7 @@ def dispatch (cmd rest : String) : String :=
   | "session" => cmdSession rest
   | "ws" => cmdWs rest
   | "wscheck" => cmdWsCheck rest
+  | "lspmap" => cmdLspMap rest
   | _ => s!"bad-cmd {cmd}"
 
 partial def loop (h : IO.FS.Stream) (out : IO.FS.Stream) : IO Unit := do
